@@ -114,6 +114,8 @@ pub fn generate(prop: &PropDef, tier: &str, seed: u64, index: u64) -> RunSpec {
             s.extra = serde_json::to_value(crate::crash::default_plan(tier)).unwrap();
             s
         }
+        EngineKind::Multi => crate::multi::gen_multi(prop, seed),
+        EngineKind::Conc => crate::conc::gen_conc(prop, seed, tier),
         EngineKind::Corrupt => {
             let mut s = crate::gen::gen_run(prop.id, seed, &(prop.profile)());
             s.extra = serde_json::to_value(crate::corrupt::default_plan(tier)).unwrap();
@@ -166,6 +168,9 @@ pub fn finish_result(
         joined.push_str(l);
         joined.push('\n');
     }
+    for (k, v) in &stats.counters {
+        joined.push_str(&format!("{k}={v};"));
+    }
     r.digest = crate::rng::hash_bytes(joined.as_bytes());
     if (prop.nontrivial)(stats) {
         r.nontrivial_digests.push(r.digest);
@@ -196,6 +201,8 @@ pub fn run_spec(prop: &PropDef, spec: &RunSpec, workdir: &Path, index: u64) -> R
         EngineKind::Crash => crate::crash::run_crash(prop, spec, workdir, index),
         EngineKind::Fault => crate::fault::run_fault(prop, spec, workdir, index),
         EngineKind::Corrupt => crate::corrupt::run_corrupt(prop, spec, workdir, index),
+        EngineKind::Multi => crate::multi::run_multi(prop, spec, workdir, index),
+        EngineKind::Conc => crate::conc::run_conc(prop, spec, workdir, index),
         _ => run_seq(prop, spec, workdir, index),
     }
 }
